@@ -18,6 +18,124 @@ PARAM_POOL = ["beta", "gamma", "alpha", "mu", "kappa", "sigma", "rho", "delta", 
 DERIVED_POOL = ["d1", "d2", "lam", "R0"]
 RATE_KINDS = [("linear", 3), ("mass", 4), ("saturating", 2), ("exponential", 1), ("periodic", 1)]
 
+# ---------------------------------------------------------------------------------------------------------
+# "wide" input space (opt-in through gen_model(..., wide={...}); the default random stream is untouched).
+# Names a user may well choose and which collide with plausible Python locals / builtins / sympy / numpy names, or
+# with each other as prefixes / suffixes.  Everything listed is ACCEPTED by the unchanged pygom (probed name by
+# name as a state and as a parameter: ode / jacobian / grad / vMat / eventRateVector right); what it rejects is
+# left out: `lambda` ("reserved keyword"), a leading underscore, `t` (the time symbol), `None` / `True`, and the
+# names sympy's parser itself calls in the transformed source (`Integer`, `Float`, `Rational`, `Symbol`, `symbols`).
+# `exp`, `cos`, `pi`, `log`, `sin` are only drawn for models that do not use the function / constant of that name.
+# ---------------------------------------------------------------------------------------------------------
+TRAP_STATE_POOL = ["s", "i", "r", "e", "S", "I", "R", "E", "N", "Q", "O", "C", "x", "y", "j", "n", "f", "k", "S1", "S10", "S_1", "I2", "x1",
+                   "x10", "Si", "In", "Id", "Ei", "li", "re", "im", "oo", "nan", "len", "sum", "abs", "int", "id", "np", "A", "B", "V", "W", "H", "D", "dS", "S2I"]
+TRAP_PARAM_POOL = ["i", "j", "k", "n", "x", "y", "f", "e", "s", "r", "beta", "beta1", "betaS", "beta_1", "gamma", "zeta", "N", "Q", "O", "C", "E",
+                   "I", "S", "pi", "exp", "log", "sin", "cos", "Max", "Min", "Abs", "sqrt", "ln", "min", "max", "float", "str", "list", "map",
+                   "all", "any", "a_b", "lam", "mu", "nu", "rho", "tau", "N0", "R0", "a", "b", "c", "d", "g", "h", "p", "q", "dt", "var", "rf", "ff"]
+TRAP_DERIVED_POOL = ["d1", "d2", "lam", "R0", "N", "n", "i", "k", "e", "foi", "gamma", "beta", "I", "S", "E", "Q", "x", "y", "f"]
+TRAP_FAMILIES_STATE = [["s", "i", "r"], ["s", "e", "i", "r"], ["S", "S1", "S10"], ["x", "x1", "x10"], ["I", "I2", "Id"], ["i", "j", "k"], ["S", "I", "E", "N"],
+                       ["i", "In", "int"], ["e", "E", "Ei"]]
+TRAP_FAMILIES_PARAM = [["beta", "beta1", "betaS"], ["beta", "beta_1", "gamma"], ["i", "j", "k"], ["n", "N", "N0"], ["e", "E", "exp"], ["i", "I", "pi"],
+                       ["x", "y", "f"], ["k", "i", "n"], ["S", "Q", "O"]]
+FUNCTION_NAMES = {"exp": ("exponential",), "cos": ("periodic",), "pi": ("periodic",)}
+
+
+def draw_names(rng, pool, families, k, taken):
+    """k distinct names from `pool` not in `taken`; with probability 0.4 a family of related names comes first"""
+    out = []
+    if rng.random() < 0.4:
+        fam = [n for n in rng.choice(families) if n not in taken]
+        rng.shuffle(fam)
+        out = fam[:k]
+    rest = [n for n in pool if n not in taken and n not in out]
+    out += rng.sample(rest, k - len(out))
+    rng.shuffle(out)
+    return out
+
+
+WIDE_CONSTS = [(1, 1000), (1, 3), (5, 2), (1, 100), (3, 1000), (2, 1), (10000, 1), (7, 4), (1, 8), (25, 10000)]
+
+
+def gen_mag_wide(rng, states, coefs, opts):
+    """a magnitude as a user may write it: a number, a symbol, or a COMPOUND expression of parameters and numbers (sum,
+    difference, product, quotient, power, unary minus); with opts["state_mags"] also one that depends on a state"""
+    u = rng.random()
+    p = E.var(rng.choice(coefs))
+    others = [c for c in coefs if c != p[1]]
+    q = E.var(rng.choice(others)) if others else E.num(rng.randint(2, 3))
+    if u < 0.30:
+        return E.num(rng.randint(1, 3))
+    if u < 0.40:
+        return p
+    if rng.random() < opts.get("state_mags", 0.0):
+        X = E.var(rng.choice(states))
+        form = rng.choice(["pX", "X_over", "p_1mX", "X_plus", "pX_q"])
+        if form == "pX":
+            return E.mul(p, X)
+        if form == "X_over":
+            return E.div(X, E.num(rng.randint(2, 4)))
+        if form == "p_1mX":
+            return E.mul(p, E.sub(E.num(1), E.div(X, E.num(50))))
+        if form == "X_plus":
+            return E.add(X, E.num(1))
+        return E.add(E.mul(p, X), q)
+    form = rng.choice(["one_minus", "sum", "diff", "scale", "over", "prod_comp", "pow", "neg", "ratio", "sum3", "num_plus", "frac_scale"])
+    if form == "one_minus":
+        return E.sub(E.num(1), p)
+    if form == "sum":
+        return E.add(p, q)
+    if form == "diff":
+        return E.sub(E.mul(E.num(2), p), q) if q[0] == "var" else E.sub(p, E.num(1, 2))
+    if form == "scale":
+        return E.mul(E.num(rng.randint(2, 3)), p)
+    if form == "over":
+        return E.div(p, E.num(2))
+    if form == "prod_comp":
+        return E.mul(p, E.sub(E.num(1), q))
+    if form == "pow":
+        return E.pow_(p, 2)
+    if form == "neg":
+        return E.neg(p)
+    if form == "ratio":
+        return E.div(p, E.add(E.num(1), q))
+    if form == "sum3":
+        return E.add(E.add(p, q), E.num(1))
+    if form == "num_plus":
+        return E.add(E.num(1), p)
+    return E.mul(E.num(1, rng.choice([2, 3, 4])), p)
+
+
+def widen_rate(rng, rate):
+    """numeric constants (1e-3, 1/3, 2.5 ...) and `**` powers in a rate"""
+    if rate[0] == "mul" and rate[1][0] == "mul" and rate[1][2] == rate[2] and rng.random() < 0.6:
+        rate = E.mul(rate[1][1], E.pow_(rate[2], 2))            # a*X*X -> a*X**2
+    if rng.random() < 0.3:
+        c = E.num(*rng.choice(WIDE_CONSTS))
+        rate = E.mul(c, rate) if rng.random() < 0.5 else E.mul(rate, c)
+    return rate
+
+
+def rand_syntax(rng):
+    return {"spaces": rng.choice([0, 1, 1, 2]), "num": rng.choice(["frac", "frac", "sci", "dec", "rational"]), "pad": rng.random() < 0.2}
+
+
+def mag_tags(meta):
+    """tags describing the magnitudes of a generated model (input-distribution histogram)"""
+    out = set()
+    st = set(meta["states"])
+    for p in meta["procs"]:
+        for tr in p["transitions"]:
+            m = tr["mag"]
+            if m[0] in ("add", "sub"):
+                out.add("mag:top-level-additive")
+            elif m[0] == "neg":
+                out.add("mag:unary-minus")
+            elif m[0] not in ("num", "var"):
+                out.add("mag:compound")
+            if E.free_vars(m) & st:
+                out.add("mag:state-dependent")
+    return sorted(out)
+
 
 def case_hash(obj):
     return hashlib.sha256(json.dumps(obj, sort_keys=True).encode()).hexdigest()[:16]
@@ -56,7 +174,7 @@ def gen_rate(rng, states, coefs, kinds, origin=None):
 
 
 def gen_processes(rng, states, coefs, n_events, kinds, max_trans=3, types=(("T", 6), ("B", 2), ("D", 2)),
-                  sym_mag=True, max_mag=3):
+                  sym_mag=True, max_mag=3, mag_gen=None):
     procs = []
     for _ in range(n_events):
         ntr = wchoice(rng, [(1, 6), (2, 3), (3, 1)]) if max_trans >= 3 else wchoice(rng, [(1, 6), (2, 3)][:max_trans])
@@ -65,7 +183,9 @@ def gen_processes(rng, states, coefs, n_events, kinds, max_trans=3, types=(("T",
             tt = wchoice(rng, list(types))
             if tt == "T" and len(states) < 2:
                 tt = rng.choice(["B", "D"])
-            if sym_mag and rng.random() < 0.3:
+            if mag_gen is not None:
+                mag = mag_gen(rng)
+            elif sym_mag and rng.random() < 0.3:
                 mag = E.var(rng.choice(coefs))
             else:
                 mag = E.num(rng.randint(1, max_mag))
@@ -157,12 +277,23 @@ ALL_ROUTES = ("event", "event_eq", "event_bare", "legacy", "incremental")
 
 def gen_model(rng, *, min_states=1, max_states=5, max_params=5, min_events=0, max_events=5, kinds=None,
               allow_time=True, sym_mag=True, max_mag=3, allow_ode=True, allow_derived=True, allow_range=True,
-              routes=ALL_ROUTES, types=(("T", 6), ("B", 2), ("D", 2)), limits=False, max_trans=3):
+              routes=ALL_ROUTES, types=(("T", 6), ("B", 2), ("D", 2)), limits=False, max_trans=3, wide=None):
+    """`wide` (opt-in; None leaves the random stream of every existing caller unchanged) widens the INPUT SPACE:
+    {"names": bool - trap names (TRAP_*_POOL); "mags": bool - compound magnitudes; "state_mags": probability that a compound
+    magnitude depends on a state; "derived_states": probability that a derived parameter contains a state; "consts": bool -
+    numeric constants and ** powers in rates; "size": None | "many_states" | "many_params" | "many_events"; "syntax": bool -
+    the strings handed to pygom are written as a user would (exprs.user_str) instead of fully parenthesised}"""
     kinds = list(kinds or RATE_KINDS)
     if not allow_time:
         kinds = [k for k in kinds if k[0] != "periodic"]
     nS = rng.randint(min_states, max_states)
     nP = rng.randint(1, max_params)
+    wide = wide or {}
+    size = wide.get("size")
+    if size == "many_states":
+        nS, nP = rng.randint(8, wide.get("size_max", 12)), rng.randint(1, 3)
+    elif size == "many_params":
+        nS, nP = rng.randint(max(min_states, 1), 3), rng.randint(8, wide.get("size_max", 12))
     # state declaration, possibly with one range-style entry
     decl_states = []
     if allow_range and nS >= 2 and rng.random() < 0.2:
@@ -172,18 +303,35 @@ def gen_model(rng, *, min_states=1, max_states=5, max_params=5, min_events=0, ma
         rest = nS - k
     else:
         rest = nS
-    decl_states += rng.sample(STATE_POOL, rest)
+    # a range-style declaration `y:3` occupies the base name `y` as well (pygom keeps the vector under it): not drawn again
+    base_taken = {"y"} if decl_states else set()
+    if wide.get("names"):
+        decl_states += draw_names(rng, TRAP_STATE_POOL, TRAP_FAMILIES_STATE, rest, set(expand_decl(decl_states)) | base_taken)
+    else:
+        decl_states += rng.sample(STATE_POOL, rest)
     rng.shuffle(decl_states)
     states = expand_decl(decl_states)
-    params = rng.sample(PARAM_POOL, nP)
+    if wide.get("names"):
+        params = draw_names(rng, TRAP_PARAM_POOL, TRAP_FAMILIES_PARAM, nP, set(states) | base_taken)
+        derived_pool = [n for n in TRAP_DERIVED_POOL if n not in states and n not in params and n not in base_taken]
+    else:
+        params = rng.sample(PARAM_POOL, nP)
+        derived_pool = DERIVED_POOL
+    for n in states + params:
+        # a name that is also a function / constant of the expression language: the model does not use that function
+        kinds = [k for k in kinds if k[0] not in FUNCTION_NAMES.get(n, ())] if wide.get("names") else kinds
     derived = []
     coefs = list(params)
     if allow_derived and rng.random() < 0.3:
         nd = 1 if rng.random() < 0.7 else 2
-        for name in rng.sample(DERIVED_POOL, nd):
+        for name in rng.sample(derived_pool, nd):
             base = E.var(rng.choice(params))
             form = rng.choice(["scale", "ratio", "sum", "chain"])
-            if form == "chain" and derived:
+            if wide.get("derived_states") and rng.random() < wide["derived_states"]:
+                # a derived parameter that contains a state (a force of infection, a density-dependent rate)
+                X = E.var(rng.choice(states))
+                e = E.mul(base, X) if rng.random() < 0.5 else E.div(E.mul(base, X), E.add(E.num(1), E.var(rng.choice(states))))
+            elif form == "chain" and derived:
                 e = E.mul(E.var(derived[-1][0]), E.add(E.num(1), base))
             elif form == "ratio" and len(params) >= 2:
                 e = E.div(base, E.add(E.num(1), E.var(rng.choice(params))))
@@ -194,7 +342,13 @@ def gen_model(rng, *, min_states=1, max_states=5, max_params=5, min_events=0, ma
             derived.append([name, e])
             coefs.append(name)
     nE = rng.randint(min_events, max_events)
-    procs = gen_processes(rng, states, coefs, nE, kinds, max_trans=max_trans, types=types, sym_mag=sym_mag, max_mag=max_mag)
+    if size == "many_events":
+        nE = rng.randint(8, wide.get("size_max", 12))
+    mag_gen = (lambda r_: gen_mag_wide(r_, states, coefs, wide)) if wide.get("mags") else None
+    procs = gen_processes(rng, states, coefs, nE, kinds, max_trans=max_trans, types=types, sym_mag=sym_mag, max_mag=max_mag, mag_gen=mag_gen)
+    if wide.get("consts"):
+        for p_ in procs:
+            p_["rate"] = widen_rate(rng, p_["rate"])
     odes = []
     if allow_ode and rng.random() < 0.3:
         for _ in range(rng.randint(1, 3)):
@@ -210,6 +364,8 @@ def gen_model(rng, *, min_states=1, max_states=5, max_params=5, min_events=0, ma
             lims.append(rng.choice([None, (0, None), (None, None), (0, rng.randint(20, 60)), (None, rng.randint(30, 80)), (1, None)]))
     abstract = {"decl_states": decl_states, "states": states, "params": params, "derived": derived, "procs": procs,
                 "odes": odes, "lims": lims}
+    if wide.get("syntax"):
+        abstract["syntax"] = rand_syntax(rng)
     return make_spec(rng, abstract, routes)
 
 
@@ -236,6 +392,8 @@ def make_spec(rng, abstract, routes=ALL_ROUTES, shuffle=False, as_ode_prob=0.0, 
         "ctor": {"event": [], "transition": [], "birth_death": [], "ode": []},
         "then": [],
     }
+    if abstract.get("syntax"):
+        spec["syntax"] = dict(abstract["syntax"])
     if shuffle:
         rng.shuffle(procs)
         rng.shuffle(odes)
@@ -271,6 +429,18 @@ def make_spec(rng, abstract, routes=ALL_ROUTES, shuffle=False, as_ode_prob=0.0, 
     meta = {"states": abstract["states"], "params": params, "derived": [d[0] for d in derived], "procs": procs, "odes": odes,
             "routes": route_names, "kinds": [p["kind"] for p in procs], "abstract": abstract}
     return spec, meta
+
+
+def rand_point_extreme(rng, meta, t_max=3, p_lo=-9, p_hi=8, s_lo=-3, s_hi=6):
+    """very small and very large values: parameters m*10^k with k in [p_lo, p_hi], states m*10^k with k in [s_lo, s_hi]
+    (m = 1..9), exact rationals; comparisons at such a point must be relative per entry (see common.scaled_close)"""
+    env = {}
+    for s in meta["states"]:
+        env[s] = Fraction(rng.randint(1, 9)) * Fraction(10) ** rng.randint(s_lo, s_hi)
+    for p in meta["params"]:
+        env[p] = Fraction(rng.randint(1, 9)) * Fraction(10) ** rng.randint(p_lo, p_hi)
+    env["t"] = Fraction(rng.randint(0, 12 * t_max), 12)
+    return env
 
 
 def rand_point(rng, meta, t_max=3, integer=False, zeros=False, big=False):
